@@ -423,10 +423,14 @@ STEPS = ["rewrite", "rewrite-equal-mtime", "del-fai", "del-agp", "load", "crash-
 
 def variant(rng, k):
     recs = []
-    for i in range(rng.randint(1, 4)):
+    nl = b"\r\n" if rng.random() < 0.25 else b"\n"  # (a cache must bring back the line width of CRLF files too)
+    names = [b"v%d_%d" % (k, i) for i in range(rng.randint(1, 4))]
+    if rng.random() < 0.5:
+        names = [rng.choice([b"z", b"m10_", b"m2_", b"a", b"Z"]) + n for n in names]  # not in sorted order
+    for nm in names:
         seq = bytes(rng.choice(b"ACGTN") for _ in range(rng.randint(1, 40)))
         w = rng.choice([5, 10, 60])
-        recs.append(b">v%d_%d\n" % (k, i) + b"\n".join(seq[j : j + w] for j in range(0, len(seq), w)) + b"\n")
+        recs.append(b">" + nm + nl + nl.join(seq[j : j + w] for j in range(0, len(seq), w)) + nl)
     return b"".join(recs)
 
 
